@@ -151,6 +151,19 @@ def subs_oracle(ix: Index, scn: dict) -> list[Violation]:
             late = [g for g in got if g[0] > s["to"] and g[1] not in ("cb_va_start_done", "cb_va_start_cancelled")]
             if late:
                 out.append(Violation("delivery-after-unsubscribe", kind, f"{tag} ({kind}) received {late[0][1]} after its unsubscribe function had returned"))
+            # a start handler still running when the unsubscribe function returns is ended there (cancelled), whether the
+            # session is still up or not: it does not run on to answer a request nobody is subscribed to any more
+            survived = [g for g in got if g[1] == "cb_va_start_done" and g[0] > s["to"]]
+            # (only the handler of the latest start request is tracked by the subscription - an older one that a newer request
+            # overtook runs on unowned; judged only when exactly one handler was in flight)
+            starts_before = [g for g in got if g[1] == "cb_va_start" and g[0] < s["unsub_start"]]
+            latest = starts_before[-1] if starts_before else None
+            lcid = latest[2].get("conversation_id") if latest else None
+            unique = latest is not None and sum(1 for g in starts_before if g[2].get("conversation_id") == lcid) == 1
+            ended = latest is not None and any(g[1] in ("cb_va_start_done", "cb_va_start_cancelled") and g[2].get("conversation_id") == lcid and latest[0] < g[0] < s["unsub_start"] for g in got)
+            survived = [g for g in survived if g[2].get("conversation_id") == lcid]
+            if survived and unique and not ended:
+                out.append(Violation("voice-start-survived-unsubscribe", "", f"{tag}: a start handler that was running when the unsubscribe function returned ran to completion afterwards (port {survived[0][2].get('port')})"))
         if kind == "states":
             want = []
             want_msgs: list = []
